@@ -18,9 +18,10 @@ def add_signal(self, path, t_profile, f_profile, bp_profile=None, bounding_f_ran
         bounding_min = min(max(self.get_index(bounding_f_range[0]), 0), self.fchans)
         bounding_max = min(max(self.get_index(bounding_f_range[1]), 0), self.fchans)
     restricted_fs = self.fs[bounding_min:bounding_max]
-    if integrate_f_profile:
+    restricted_fchans = len(restricted_fs)
+    # (a bounding range may select no channel at all -- wholly outside the band: nothing to sub-sample, result is empty/zero)
+    if integrate_f_profile and restricted_fchans > 0:
         f0 = restricted_fs[0]
-        restricted_fchans = len(restricted_fs)
         restricted_fs = np.linspace(f0, f0 + restricted_fchans * self.df, restricted_fchans * f_subsamples, endpoint=False)
     ff, _ = np.meshgrid(restricted_fs, self.ts)
     if callable(t_profile):
@@ -76,9 +77,13 @@ def add_signal(self, path, t_profile, f_profile, bp_profile=None, bounding_f_ran
     if callable(bp_profile):
         bp_profile = bp_profile(restricted_fs)
     elif isinstance(bp_profile, (list, np.ndarray)):
+        # bandpass(f_j): one value per frequency column of the (bounded) range, whatever the integrate_* flags;
+        # the sub-samples of a column share the column's value
         bp_profile = np.array(bp_profile)
-        if bp_profile.shape != restricted_fs.shape:
+        if bp_profile.shape != (restricted_fchans,):
             raise ValueError('shape')
+        if integrate_f_profile:
+            bp_profile = np.repeat(bp_profile, f_subsamples)
     elif isinstance(bp_profile, (int, float)):
         bp_profile = np.full(restricted_fs.shape, bp_profile)
     else:
@@ -268,6 +273,23 @@ def configs(tier):
 
 def run(ctx):
     fi = ctx.func(FR + 'add_signal')
+    # SCALARFORM: "each given as a function, an array or a scalar" -- the scalar branch of every component must accept numpy
+    # scalars too (np.float32 level read from loaded data, np.int64 index arithmetic), not only Python int/float
+    import ast as _ast
+    SCAL = {'int', 'float', 'integer', 'floating', 'number', 'Number', 'Real', 'Integral', 'generic', 'complex', 'complexfloating'}
+    n_sc = 0
+    for n in _ast.walk(fi.node):
+        if isinstance(n, _ast.Call) and isinstance(n.func, _ast.Name) and n.func.id == 'isinstance' and len(n.args) == 2:
+            tys = n.args[1].elts if isinstance(n.args[1], _ast.Tuple) else [n.args[1]]
+            names = {_ast.unparse(t).split('.')[-1] for t in tys}
+            if not names or not names <= SCAL:
+                continue
+            n_sc += 1
+            ok = bool(names & {'number', 'Number', 'Real', 'generic'}) or {'integer', 'floating'} <= names
+            ctx.clause = 'D1-D5'
+            ctx.ob('SCALARFORM', 'the scalar form of a signal component includes numpy scalars (np.integer / np.floating), not only '
+                   'Python int and float', fi, ok, {'test': _ast.unparse(n)}, node=n)
+    ctx.require(n_sc >= 3, 'add_signal: the scalar-form tests of path / t_profile / bp_profile were not found (SCALARFORM vacuity guard)')
     T.NOTNONE.update({'path', 't_profile', 'f_profile', 'BP', 'BFR'})
     T.INTEGER.update({'t_subsamples', 'f_subsamples', 'smearing_subsamples'})
     T.POSITIVE.update({'t_subsamples', 'f_subsamples', 'smearing_subsamples'})
